@@ -347,6 +347,9 @@ def h_model_accessors(h, name, ri):
     lu = req.get('loading_unit') or (S['loading_unit'] if lb == S['loading_basis'] else None)
     mat_ch = (mb, mu) != (S['material_basis'], S['material_unit'])
     regs = {'requested-fraction-and-material-changes': lb in FR and mat_ch}
+    from .c10 import regions as model_regions
+    preg = dict(regs)
+    preg.update(model_regions(name, m))      # the model's own inverse is wrong on a degenerate parameter surface (C10 finding)
 
     def to_req_loading(n):
         r = n
@@ -369,7 +372,7 @@ def h_model_accessors(h, name, ri):
     n_req = to_req_loading(n_native)
     got, e = _try(lambda: iso.pressure_at(n_req, **req))
     if e is None:
-        h.claim(f'{cid}/pressure_at', _all_close(h, got, [p_req], 1e-9), regs)
+        h.claim(f'{cid}/pressure_at', _all_close(h, got, [p_req], 1e-9), preg)
     else:
         h.claim(f'{cid}/pressure_at-refused(no claim)', True, info=repr(e)[:80])
 
